@@ -96,6 +96,9 @@ class OutputsArm(Arm):
                     for k2, v in list((e.get("xs") or {}).items()):
                         head, rest = v.split("/", 1)
                         e["xs"][k2] = ren.get(head, head) + "/" + rest
+            if len(spec["ntypes"]) >= 2 and draw(st.integers(0, 3)) == 0:
+                # structurally different node templates that carry the same template name (and no path)
+                spec["same_nt_names"] = True
             rm = RefModel(spec)
             req = draw(request_strategy(spec, rm))
             return {"spec": spec, "req": req,
@@ -129,6 +132,8 @@ class OutputsArm(Arm):
             lab.append("depth>=2")
         if any(p in ("t", "y", "dy", "hist", "weight", "x", "r", "all_", "in_edge_0") for p, _ in spec["nodes"]):
             lab.append("node_named_like_a_variable")
+        if spec.get("same_nt_names"):
+            lab.append("same_node_template_names")
         requests = req["outputs"]
         items = list(requests.items()) if form == "dict" else [(r, r) for r in requests]
         expected = {}
